@@ -3,7 +3,7 @@ use std::{
     collections::{HashMap, HashSet},
     ffi::OsStr,
     ops::Deref,
-    path::{Path, PathBuf},
+    path::{Component, Path, PathBuf},
     sync::Arc,
 };
 use zydeco_surface::textual::{DocumentationSite, ImportSite, LiteralSite, syntax as t};
@@ -52,22 +52,29 @@ pub(crate) struct SourcePath;
 impl SourcePath {
     pub(crate) fn identity(path: &Path) -> std::io::Result<PathBuf> {
         path.canonicalize().or_else(|_| {
+            // Resolve the longest existing prefix physically and the remainder, which no
+            // file system entry can contradict, lexically.
             let absolute = std::path::absolute(path)?;
-            let mut ancestor = absolute.as_path();
-            let mut suffix = PathBuf::new();
-            loop {
-                if let Ok(canonical) = ancestor.canonicalize() {
-                    return Ok(canonical.join(suffix));
+            let mut identity = PathBuf::new();
+            let mut physical = true;
+            for component in absolute.components() {
+                match component {
+                    | Component::CurDir => {}
+                    | Component::ParentDir => {
+                        identity.pop();
+                    }
+                    | component => {
+                        identity.push(component);
+                        if physical {
+                            match identity.canonicalize() {
+                                | Ok(canonical) => identity = canonical,
+                                | Err(_) => physical = false,
+                            }
+                        }
+                    }
                 }
-                let Some(name) = ancestor.file_name() else {
-                    return Ok(absolute);
-                };
-                suffix = PathBuf::from(name).join(suffix);
-                let Some(parent) = ancestor.parent() else {
-                    return Ok(absolute);
-                };
-                ancestor = parent;
             }
+            Ok(identity)
         })
     }
 }
